@@ -280,6 +280,32 @@ def make(rng):
     return g, lib, callers
 
 
+def make_shared(rng):
+    """callers with several uses in *one* scope (siblings, extensions included): fillers a use leaves behind are picked up
+    by later uses (known findings D-09a/b); the model has the same deque mechanics, so model and implementation must still agree"""
+    g = G(rng)
+    scope = ['u', 'n']
+    names = [g.macro(scope, 1, [])]
+    if rng.random() < 0.6:
+        names.append(g.macro(scope, 1, []))
+    exts = []
+    for _ in range(rng.randint(1, 2)):
+        exts.append(g.extension(scope, rng.choice(names + exts)))
+    # slot names shared between macros make leftovers observable
+    kids = []
+    for _ in range(rng.randint(2, 4)):
+        u = g.use(scope, 1, rng.choice(names + exts + exts))
+        u['wrap'] = []
+        kids.append(u)
+        kids.append('|')
+    caller = {'k': 'el', 'tag': 'div', 'attrs': [], 'kids': kids, 'macro': g.fresh('w'), 'slots': []}
+    lib = [g.macros[n] for n in g.order]
+    return g, lib, [caller]
+
+
+INLINED = {}
+
+
 def sources(g, lib, callers):
     m = '<html>' + '\n'.join(metal(g, t) for t in lib) + '|' + '\n'.join(metal(g, t) for t in callers) + '</html>'
     i = '<html>' + '\n'.join(inline(g, t) for t in lib) + '|' + '\n'.join(inline(g, t) for t in callers) + '</html>'
@@ -296,7 +322,27 @@ def correspondence(ctx):
         g, lib, callers = make(ctx.rng)
         m, i = sources(g, lib, callers)
         cases.append({'src': m, 'vars': VARS, 'objs': []})
+    for _ in range(ctx.budget(500, 15000)):
+        g, lib, callers = make_shared(ctx.rng)
+        m, i = sources(g, lib, callers)
+        INLINED[m] = i
+        cases.append({'src': m, 'vars': VARS, 'objs': []})
     pipeline.run_cases(ctx, cases, what='METAL')
+
+
+def judge_disagreement(ctx, d):
+    """the model and the implementation differ on a template with several uses in one scope: does the implementation render it
+    like the inlined template?"""
+    src = d['input'].get('src') if isinstance(d.get('input'), dict) else None
+    i = INLINED.get(src)
+    if i is None:
+        return
+    a = pipeline.run_impl({'src': src, 'vars': VARS, 'objs': []})
+    b = pipeline.run_impl({'src': i, 'vars': VARS, 'objs': []})
+    if strip(a) != strip(b):
+        ctx.violation('using a macro does not render like the hand-inlined, METAL-free template (several uses in one scope; the outcome '
+                      'also differs from the model of the known filler mechanics)', {'metal': src, 'inlined': i, 'vars': VARS},
+                      expected=strip(b), actual=strip(a))
 
 
 def oracle(ctx):
